@@ -471,3 +471,292 @@ CONTRACTS = [
              ensures=[("quarter_in_force_from_t_to_next_change_and_nothing_else", _sqd_step_function),
                       ("points_and_links_untouched", _sqd_points_same)] + _named_wf_post()),
 ]
+
+MANIFEST = {
+    "level": "proof",
+    "technique": "contract-based deductive verification: representation invariant + whole-view contracts on the timeline operations, SMT over a heap model of the real source (symbolic-length point array, quarter lists, loop invariant), induction over histories; finite-model refutation with native replay; bounded lock-step run-time contract check for registries and queries",
+    "text": "wf(part) (points allocated, times >= 0 and strictly increasing, prev/next the true neighbours, quarter lists aligned and increasing, every point carries the quarter in force) is proved to be preserved, for timelines of ANY length, by Part._add_point, _remove_point, get_point (read-only), get_or_add_point and set_quarter_duration, each with a whole-view postcondition (sorted insertion / deletion of exactly one point, the property's step-function wording for set_quarter_duration) and frame clauses; Part() establishes wf (closed evaluation). By induction every finite interleaving of these operations keeps wf. Registration/deregistration (Part.add/remove, TimePoint registries, _cleanup_point) and the class/interval/neighbour queries are NOT under SMT contract: the same executable invariant plus a reference model is checked at run time on all operation histories in a stated small scope (bounded, not counted as proved).",
+    "note": "trusted: np.searchsorted/np.insert/np.delete contracts, scipy interp1d(kind=previous) = step function (with ghost segment index), ComparableMixin inlined; registries and queries bounded only; termination not proved",
+}
+EXPLANATION = ("58+ SMT obligations over the real source of the timeline operations (heap arrays for TimePoint fields, symbolic-length "
+               "sequences), every one proved for all timeline lengths; induction base by closed evaluation; registries/queries by "
+               "bounded lock-step histories against a reference model.")
+TRUSTED = ["np.searchsorted / np.insert / np.delete on 1-D object arrays", "scipy interp1d(kind='previous')", "list.insert, list item assignment",
+           "defaultdict/_OrderedSet (dict insertion order) - only exercised by the bounded part"]
+
+
+# ------------------------------------------------------------------------------------------------ closed
+def closed_part_init_establishes_wf():
+    sc = _sc()
+    n = 0
+    for q in list(range(1, 17)) + [24, 96, 480, 960]:
+        n += 1
+        p = sc.Part("P", quarter_duration=q)
+        S = NativeState(p)
+        for slug, g in wf(S):
+            if not g:
+                return False, n, {"input": q, "what": "Part(quarter_duration=%d) violates wf conjunct %s" % (q, slug)}
+        if p.first_point is not None or p.last_point is not None or p.get_point(0) is not None:
+            return False, n, {"input": q, "what": "empty part has points"}
+    return True, n, ""
+
+
+def closed_comparable_and_subclasses():
+    """TimePoints compare by time (all six operators); iter_subclasses yields each strict subclass of the timed-object
+    hierarchy exactly once... (diamond classes may repeat by design of depth-first traversal: checked = set equality + first-visit order)"""
+    sc = _sc()
+    from partitura.utils.generic import iter_subclasses
+    import operator
+    n = 0
+    for a, b in itertools.product(range(0, 4), repeat=2):
+        for op in (operator.lt, operator.le, operator.eq, operator.ne, operator.gt, operator.ge):
+            n += 1
+            if op(sc.TimePoint(a), sc.TimePoint(b)) != op(a, b):
+                return False, n, {"input": [a, b, op.__name__], "what": "TimePoint comparison disagrees with comparison of times"}
+
+    def subs(c, seen):
+        for s in c.__subclasses__():
+            if s not in seen:
+                seen.add(s)
+                yield s
+                yield from subs(s, seen)
+    for cls in [sc.TimedObject, sc.GenericNote, sc.Note, sc.Direction, sc.Harmony]:
+        n += 1
+        got = list(iter_subclasses(cls))
+        want = list(subs(cls, set()))
+        if got != want:
+            return False, n, {"input": cls.__name__, "what": "iter_subclasses: %r, expected each strict subclass once depth-first: %r" % (
+                [c.__name__ for c in got], [c.__name__ for c in want])}
+    return True, n, ""
+
+
+CLOSED = [("Part_init_establishes_wf", closed_part_init_establishes_wf),
+          ("timepoint_comparison_and_subclass_enumeration", closed_comparable_and_subclasses)]
+
+
+# ------------------------------------------------------------------------------------------------ bounded: histories
+class RefModel:
+    """reference model of a part: registries by time, quarter step function"""
+
+    def __init__(self, q):
+        self.start = {}  # obj -> time
+        self.end = {}
+        self.sreg = {}  # time -> {cls: [objs]}
+        self.ereg = {}
+        self.q = [(0, q)]
+        self.bare = set()
+
+    def times(self):
+        ts = set(self.bare)
+        for reg in (self.sreg, self.ereg):
+            for t, d in reg.items():
+                if any(d.values()):
+                    ts.add(t)
+        return sorted(ts)
+
+    def add(self, o, s, e):
+        if s is not None:
+            self.sreg.setdefault(s, {}).setdefault(type(o), []).append(o)
+            self.start[o] = s
+            self.bare.discard(s)
+        if e is not None:
+            self.ereg.setdefault(e, {}).setdefault(type(o), []).append(o)
+            self.end[o] = e
+            self.bare.discard(e)
+
+    def remove(self, o, which):
+        if which in ("start", "both") and o in self.start:
+            t = self.start.pop(o)
+            self.sreg[t][type(o)].remove(o)
+        if which in ("end", "both") and o in self.end:
+            t = self.end.pop(o)
+            self.ereg[t][type(o)].remove(o)
+
+    def setq(self, t, qv):
+        """documented list semantics: an entry at t is replaced; otherwise a new entry is recorded unless it is redundant
+        (the duration in force just before t already equals qv)"""
+        if any(x == t for x, _ in self.q):
+            self.q = sorted([(x, v) for x, v in self.q if x != t] + [(t, qv)])
+        elif self.Q(t) != qv:
+            self.q = sorted(self.q + [(t, qv)])
+
+    def Q(self, u):
+        v = self.q[0][1]
+        for x, d in self.q:
+            if x <= u:
+                v = d
+        return v
+
+    def iter_all(self, cls, start, end, incl, mode, subs):
+        reg = self.ereg if mode == "ending" else self.sreg
+        out = []
+        for t in self.times():
+            if (start is None or t >= start) and (end is None or t < end):
+                d = reg.get(t, {})
+                classes = list(d.keys()) if cls is object else [cls] + (subs(cls) if incl else [])
+                for c in classes:
+                    out.extend(d.get(c, []))
+        return out
+
+
+def _subs(cls):
+    seen = set()
+
+    def rec(c):
+        for s in c.__subclasses__():
+            if s not in seen:
+                seen.add(s)
+                yield s
+                yield from rec(s)
+    return list(rec(cls))
+
+
+def _check_state(b, part, model, hist, queries=True):
+    sc = _sc()
+    S = NativeState(part)
+    bare_ok = not model.bare
+    for slug, g in wf(S):
+        b.case("history/wf_" + slug, bool(g), hist, "wf conjunct false after this history")
+    times = [p.t for p in part._points]
+    b.case("history/points_are_exactly_the_registered_times", times == model.times(), hist, "timeline %r, model %r" % (times, model.times()))
+    ok = True
+    what = ""
+    for p in part._points:
+        for reg, mreg, attr in ((p.starting_objects, model.sreg, "start"), (p.ending_objects, model.ereg, "end")):
+            got = {c: list(v) for c, v in reg.items() if len(v)}
+            want = {c: list(v) for c, v in mreg.get(p.t, {}).items() if len(v)}
+            if got != want:
+                ok, what = False, "registry at t=%d (%s) differs from model" % (p.t, attr)
+            for c, objs in got.items():
+                for o in objs:
+                    if getattr(o, attr) is not p:
+                        ok, what = False, "object listed at t=%d whose %s is not that point" % (p.t, attr)
+        if p.quarter != model.Q(p.t):
+            ok, what = False, "point t=%d carries quarter %r, in force %r" % (p.t, p.quarter, model.Q(p.t))
+        if not model.bare and not any(len(v) for v in p.starting_objects.values()) and not any(len(v) for v in p.ending_objects.values()):
+            ok, what = False, "empty point at t=%d" % p.t
+    for o, t in list(model.start.items()):
+        if o.start is None or o.start.t != t:
+            ok, what = False, "object start differs from model"
+    b.case("history/registries_and_object_ends_agree", ok, hist, what)
+    qd = part.quarter_durations()
+    b.case("history/quarter_durations_step_function", all(int(part.quarter_duration_map(u)) == model.Q(u) for u in range(0, 9)), hist,
+           "quarter_duration_map differs from the model step function; lists %r" % (qd.tolist(),))
+    if not queries:
+        return
+    okq, whatq = True, ""
+    for cls in (sc.GenericNote, sc.Note, sc.Rest, sc.Measure, None):
+        for incl in (False, True):
+            for mode in ("starting", "ending"):
+                for (s, e) in ((None, None), (1, 5), (0, 2), (2, 2), (5, None)):
+                    got = list(part.iter_all(cls, s, e, include_subclasses=incl, mode=mode))
+                    c = cls if cls is not None else object
+                    want = model.iter_all(c, s, e, incl or cls is None, mode, _subs)
+                    if cls is None:
+                        # whole hierarchy below object: order of unrelated classes is traversal order of the interpreter's class
+                        # graph; compare as multisets per time point order
+                        if sorted(map(id, got)) != sorted(map(id, want)):
+                            okq, whatq = False, "iter_all(None) returns a different set of objects"
+                    elif got != want:
+                        okq, whatq = False, "iter_all(%s, %r, %r, include_subclasses=%r, mode=%s): %d objects, model %d (or different order)" % (
+                            cls.__name__, s, e, incl, mode, len(got), len(want))
+    pts = list(part._points)
+    for i, p in enumerate(pts):
+        nxt = [o for q in pts[i + 1:] for o in q.iter_starting(sc.GenericNote, include_subclasses=True)]
+        prv = [o for q in reversed(pts[:i]) for o in q.iter_starting(sc.GenericNote, include_subclasses=True)]
+        if list(p.iter_next(sc.GenericNote, include_subclasses=True)) != nxt or list(p.iter_prev(sc.GenericNote, include_subclasses=True)) != prv:
+            okq, whatq = False, "iter_next/iter_prev from t=%d differ from the registered objects in time order" % p.t
+    if (part.first_point.t if pts else None) != (times[0] if times else None) or (part.last_point.t if pts else None) != (times[-1] if times else None):
+        okq, whatq = False, "first/last point"
+    for t in range(0, 8):
+        gp = part.get_point(t)
+        if (gp is None) != (t not in times) or (gp is not None and gp.t != t):
+            okq, whatq = False, "get_point(%d)" % t
+    b.case("history/queries_return_exactly_the_registered_objects_in_time_order", okq, hist, whatq)
+
+
+def _run_history(b, ops, every_step=True):
+    sc = _sc()
+    part = sc.Part("P", quarter_duration=2)
+    model = RefModel(2)
+    objs = {}
+    mk = {"N": lambda: sc.Note("C", 4), "R": lambda: sc.Rest(), "M": lambda: sc.Measure(), "G": lambda: sc.GraceNote("grace", "D", 4)}
+    hist = []
+    for op in ops:
+        hist.append(list(op))
+        kind = op[0]
+        try:
+            if kind == "add":
+                _, name, s, e = op
+                o = objs.get(name)
+                if o is None:
+                    o = objs[name] = mk[name[0]]()
+                # valid argument: not already registered by the end being added
+                if (s is not None and o in model.start) or (e is not None and o in model.end):
+                    hist.pop()
+                    continue
+                part.add(o, s, e)
+                model.add(o, s, e)
+            elif kind == "rm":
+                _, name, which = op
+                o = objs.get(name)
+                if o is None:
+                    hist.pop()
+                    continue
+                part.remove(o, which)
+                model.remove(o, which)
+            elif kind == "q":
+                part.set_quarter_duration(op[1], op[2])
+                model.setq(op[1], op[2])
+            elif kind == "gp":
+                part.get_or_add_point(op[1])
+                if op[1] not in model.times():
+                    model.bare.add(op[1])
+        except Exception as e:
+            b.case("history/no_exception_on_valid_arguments", False, hist, "%s: %s" % (type(e).__name__, e))
+            return
+        b.case("history/no_exception_on_valid_arguments", True, hist, "", nontrivial=len(hist) >= 3, key=repr(hist))
+        _check_state(b, part, model, hist, queries=every_step or op is ops[-1])
+
+
+def _op_universe():
+    ops = []
+    for name in ("N1", "R1", "M1", "G1"):
+        for (s, e) in ((0, 2), (2, 2), (2, 5), (5, None), (None, 2), (0, 5)):
+            ops.append(("add", name, s, e))
+        for which in ("start", "end", "both"):
+            ops.append(("rm", name, which))
+    for t, q in ((0, 3), (2, 3), (2, 2), (5, 1), (1, 2)):
+        ops.append(("q", t, q))
+    ops.append(("gp", 1))
+    return ops
+
+
+def bounded(b):
+    import random
+    U = _op_universe()
+    rng = random.Random(b.seed)
+    depth2 = list(itertools.product(U, repeat=2))
+    quick = b.tier != "thorough"
+    if quick:
+        depth2 = rng.sample(depth2, 250)
+    nrand = 120 if quick else 6000
+    b.rules.append("operation histories over 4 objects (Note, Rest, Measure, GraceNote = subclass of Note), times {0,1,2,5}, "
+                   "add by start/end/both incl. equal start and end, remove start/end/both, set_quarter_duration, get_or_add_point, "
+                   "then every query; all %d single operations, %d histories of length 2 (%s), %d seeded random histories of length 3..7; "
+                   "lock-step against a reference model; non-trivial = history of length >= 3"
+                   % (len(U), len(depth2), "sampled" if quick else "exhaustive", nrand))
+    b.scopes.append("len 1 exhaustive; len 2 %s; %d random histories len 3..7" % ("sampled" if quick else "exhaustive", nrand))
+    for h in [(u,) for u in U] + depth2:
+        _run_history(b, h, every_step=not quick)
+    for _ in range(nrand):
+        k = rng.randint(3, 7)
+        _run_history(b, [rng.choice(U) for _ in range(k)], every_step=not quick)
+
+
+def replay_case(clause, case):
+    from pyv.main import BoundedCtx
+    b = BoundedCtx("C01", "thorough", 0)
+    _run_history(b, [tuple(x) for x in case])
+    f = [x for x in b.failures if x["clause"] == clause]
+    return (not f), (f[0]["what"] if f else "holds")
